@@ -1527,7 +1527,35 @@ class Real(base.SimpleAsn1Type):
     def __le__(self, value):
         return float(self) <= value
 
+    @staticmethod
+    def __factors(value):
+        # mantissa * base ** exponent as (m, twos, fives): the number
+        # m * 2 ** twos * 5 ** fives with m divisible by neither
+        mantissa, base, exponent = value
+
+        if not mantissa:
+            return 0, 0, 0
+
+        twos, fives = exponent, base == 10 and exponent or 0
+
+        while not mantissa % 2:
+            mantissa //= 2
+            twos += 1
+
+        while not mantissa % 5:
+            mantissa //= 5
+            fives += 1
+
+        return mantissa, twos, fives
+
     def __eq__(self, value):
+        if (isinstance(value, Real) and value.isValue and
+                self._value not in self._inf and
+                value._value not in value._inf):
+            # two finite REAL values compare exactly, not through floats
+            # (which round beyond 53 bits and underflow to zero)
+            return self.__factors(self._value) == self.__factors(value._value)
+
         try:
             return float(self) == value
 
